@@ -100,7 +100,10 @@ pub fn check(rec: &RunRecord, reg: &Reg, which: &Which, cells: &mut Cells) -> Ve
                         }
                         // on chain: the next delivery of exactly these bytes to that address
                         let body_text = b64_text(&body["msg"]).map(|b| String::from_utf8_lossy(&b).to_string()).unwrap_or_default();
-                        if let Some(t) = tops[ti + 1..].iter().find(|t| t.entry() == "execute" && t.addr() == expect_addr && t.msg().as_str() == Some(&body_text)) {
+                        // (only when the bytes identify the message: the same body may be sent twice)
+                        let same_body = op.events.iter().filter(|e| matches!(e, Ev::Build { kind: "executor", output: o, .. } if o["execute"]["msg"] == body["msg"] && o["execute"]["contract_addr"] == body["contract_addr"])).count();
+                        let cands: Vec<&&Delivery> = tops[ti + 1..].iter().filter(|t| t.entry() == "execute" && t.addr() == expect_addr && t.msg().as_str() == Some(&body_text)).collect();
+                        if let (1, [t]) = (same_body, cands.as_slice()) {
                             cells.hit("c10.exec_delivered");
                             if t.ctx()["sender"].as_str() != Some(&caller) || t.ctx()["funds"] != want_funds {
                                 out.push(Finding::new("C10", "c10.exec_delivery", op.idx, format!("{caller_cid}: message built for {} arrived with sender {} funds {} (caller {}, funds {})", expect_addr, t.ctx()["sender"], t.ctx()["funds"], caller, want_funds)));
@@ -175,7 +178,9 @@ pub fn check(rec: &RunRecord, reg: &Reg, which: &Which, cells: &mut Cells) -> Ve
                         // on chain: a fresh instance of that program entered `instantiate` with them,
                         // and its contract info shows the code id, label and admin given
                         let body_text = b64_text(&m["msg"]).map(|b| String::from_utf8_lossy(&b).to_string()).unwrap_or_default();
-                        if let Some(t) = tops[ti + 1..].iter().find(|t| t.entry() == "instantiate" && t.msg().as_str() == Some(&body_text) && t.ctx()["sender"].as_str() == Some(&caller)) {
+                        let same_body = op.events.iter().filter(|e| matches!(e, Ev::Build { kind: "instantiate_builder", output: o, .. } if o["instantiate"]["msg"] == m["msg"] || o["instantiate2"]["msg"] == m["msg"])).count();
+                        let cands: Vec<&&Delivery> = tops[ti + 1..].iter().filter(|t| t.entry() == "instantiate" && t.msg().as_str() == Some(&body_text) && t.ctx()["sender"].as_str() == Some(&caller)).collect();
+                        if let (1, [t]) = (same_body, cands.as_slice()) {
                             cells.hit("c10.inst_delivered");
                             if t.cid() != input["ty"].as_str().unwrap_or("") {
                                 out.push(Finding::new("C10", "c10.inst_code", op.idx, format!("{caller_cid}: instantiate builder for {} created a {}", input["ty"], t.cid())));
